@@ -224,6 +224,23 @@ VyPrint(m, v, end) ==
     ELSE [m EXCEPT !.out = @ \o Str(v) \o end, !.printed = TRUE]
 NL == <<10>>
 
+(* vy_print of any value: a FUNCTION is called on the current stack (its arity is popped from
+   there) and its result printed -- always with a newline, whatever `end` was (PrintOfFunctionEndsLine);
+   ctx.printed is set before the call.  `kont`: what the element does after printing. *)
+PrintVal(m, v, end, kont) ==
+    IF IsF(v) THEN CallFromStack([m EXCEPT !.printed = TRUE], v, <<[k |-> "k_print"]>> \o kont)
+    ELSE IF ~Printable(v) THEN Undef(m, "print-of-function")
+    ELSE PushCtl([m EXCEPT !.out = @ \o Str(v) \o end, !.printed = TRUE], kont)
+
+(* sympy.ntheory.primefactors(int(n)): the DISTINCT primes of |n| (none for 0 and 1) *)
+RECURSIVE StripF(_, _)
+StripF(n, d) == IF n % d = 0 THEN StripF(n \div d, d) ELSE n
+RECURSIVE DistinctPF(_, _)
+DistinctPF(n, d) == IF n < 2 THEN 0
+                    ELSE IF d * d > n THEN 1
+                    ELSE IF n % d = 0 THEN 1 + DistinctPF(StripF(n, d), d + 1)
+                    ELSE DistinctPF(n, d + 1)
+
 ---------------------------------------------------------------------------
 (* iterables                                                               *)
 
@@ -301,14 +318,15 @@ Elem(m0, name) ==      \* m0: the element item already removed from ctl
       [] name = "neg1" -> Push(m0, VI(-1))
       [] name = "ten" -> Push(m0, VI(10))
       [] name = "hundred" -> Push(m0, VI(100))
-      [] name = "print" -> LET p == Pop1(m0) IN VyPrint(p[2], p[1], NL)
-      [] name = "printnonl" -> LET p == Pop1(m0) IN VyPrint(p[2], p[1], <<>>)
-      [] name = "printkeep" -> LET p == Pop1(m0) IN Push(VyPrint(p[2], p[1], NL), p[1])
+      [] name = "print" -> LET p == Pop1(m0) IN PrintVal(p[2], p[1], NL, <<>>)
+      [] name = "printnonl" -> LET p == Pop1(m0) IN PrintVal(p[2], p[1], <<>>, <<>>)
+      [] name = "printkeep" -> LET p == Pop1(m0) IN PrintVal(p[2], p[1], NL, <<[k |-> "k_pushv", v |-> p[1]]>>)
       [] name = "call" ->
            LET p == Pop1(m0)
            IN IF IsF(p[1]) THEN CallFromStack(p[2], p[1], <<[k |-> "k_push"]>>)
               ELSE IF IsL(p[1]) THEN PushRes(p[2], Mo("not", p[1]))
-              ELSE Undef(m0, "call-of-number")
+              ELSE IF IsI(p[1]) /\ Abs(p[1].i) <= 1000000 THEN Push(p[2], VI(DistinctPF(Abs(p[1].i), 2)))
+              ELSE Undef(m0, "call-of-big-number")
       [] name = "reduce" /\ ~(Len(Stk(m0)) > 1 /\ (IsF(Last(Stk(m0))) \/ IsF(Stk(m0)[Len(Stk(m0)) - 1]))) ->
            Undef(m0, "R-as-vectorised-reverse")
       [] name \in {"map", "filter", "sortby", "reduce"} ->
@@ -555,6 +573,9 @@ ItemStep(m0, it) ==
                m1 == [m0 EXCEPT !.cvals = Front(@), !.inps = Front(@), !.nstk = @ - 1, !.acts = Front(@)]
            IN SetStk(m1, Stk(m1) \o res)
       [] it.k = "k_push" -> Push(m0, m0.rv)
+      [] it.k = "k_pushv" -> Push(m0, it.v)
+      [] it.k = "k_print" -> PrintVal(m0, m0.rv, NL, <<>>)
+      [] it.k = "k_done" -> [m0 EXCEPT !.status = "done"]
       [] it.k = "k_setreg" -> [m0 EXCEPT !.reg = m0.rv]
       [] it.k = "hof" -> HofStep(m0, it)
       [] it.k = "hofk" -> HofK(m0, it)
@@ -591,6 +612,8 @@ Finish(m) ==
                   [] "j" \in fl -> IF IsL(o) THEN JoinNL(o.l) ELSE <<0>>
                   [] OTHER -> IF Printable(o) THEN Str(o) ELSE <<0>>
     IN IF ~(fl \subseteq {"H", "M", "m", "O", "o", "W", "s", "j"}) THEN Undef(m1, "flag-outside-core")
+       ELSE IF IsF(o) /\ fl \cap {"W", "s", "j"} = {}
+       THEN (IF doprint THEN PrintVal(m1, o, NL, <<[k |-> "k_done"]>>) ELSE [m1 EXCEPT !.status = "done"])
        ELSE IF text = <<0>> \/ ~Printable(o) THEN Undef(m1, "implicit-output-outside-core")
        ELSE LET m2 == IF "W" \in fl /\ ~empty THEN Push(m1, o) ELSE m1      \* stack.append(output)
             IN [m2 EXCEPT !.status = "done", !.out = IF doprint THEN @ \o text \o NL ELSE @]
